@@ -787,6 +787,12 @@ class Explorer:
         st = st0.fork()
         # a function defined inside a function that is being explored sees that function's locals (closure)
         st.store = {**outer_store, **binding} if fi.parent is not None and fi.parent in self._stack else dict(binding)
+        # attributes of an object passed by name (typically self) that the caller has assigned on this path
+        passed = {p_: dotted(v_) for p_, v_ in binding.items() if isinstance(v_, (ast.Name, ast.Attribute)) and dotted(v_)}
+        for p_, dv in passed.items():
+            for k_, val in outer_store.items():
+                if k_.startswith(dv + "."):
+                    st.store[p_ + k_[len(dv) :]] = val
         st.repl = {}
         self._stack.append(fi)
         try:
@@ -806,7 +812,13 @@ class Explorer:
         finally:
             self._stack.pop()
         for s in results:
+            inner = s.store
             s.store = dict(outer_store)
+            # attribute stores made by the callee on objects it was handed are visible to the caller afterwards
+            for p_, dv in passed.items():
+                for k_, val in inner.items():
+                    if k_.startswith(p_ + ".") and (st.store.get(k_) is not val):
+                        s.store[dv + k_[len(p_) :]] = val
             s.repl = dict(outer_repl)
             s.loops = st0.loops
             s.handler = st0.handler
@@ -1182,7 +1194,38 @@ class Explorer:
             return k_out.normal(s2)
 
         kb = _Kont(normal=after_body, ret=k_out.ret, exc=on_exc if s.handlers else k_out.exc, brk=k_out.brk, cont=k_out.cont, catches=True)
-        yield from self._block(s.body, 0, st, fi, depth, kb)
+        # implicit exceptions that the handlers of this block are written for: a failing lookup (KeyError /
+        # IndexError on a subscript or .pop()), an exhausted iterator (StopIteration on next()), a missing attribute
+        caught = {t for h in s.handlers for t in self._handler_types(h)}
+        lookup = caught & {"KeyError", "IndexError", "LookupError"}
+        stop = "StopIteration" in caught
+
+        def may_raise(stmt) -> str | None:
+            for x in ast.walk(stmt):
+                if isinstance(x, (ast.FunctionDef, ast.AsyncFunctionDef, ast.Lambda)):
+                    continue
+                if lookup and isinstance(x, ast.Subscript) and isinstance(x.ctx, ast.Load) and not isinstance(x.slice, ast.Slice):
+                    return sorted(lookup)[0]
+                if lookup and isinstance(x, ast.Call) and isinstance(x.func, ast.Attribute) and x.func.attr in ("pop", "remove", "index") :
+                    return sorted(lookup)[0]
+                if stop and isinstance(x, ast.Call) and isinstance(x.func, ast.Name) and x.func.id == "next" and len(x.args) == 1:
+                    return "StopIteration"
+            return None
+
+        def run_body(i, s2):
+            if i >= len(s.body):
+                return after_body(s2)
+
+            def gen():
+                exc_name = may_raise(s.body[i]) if s.handlers and isinstance(s.body[i], (ast.Assign, ast.AnnAssign, ast.AugAssign, ast.Expr, ast.Return)) else None
+                if exc_name is not None:
+                    s_exc = s2.fork()
+                    yield from on_exc(s_exc, ast.Call(func=ast.Name(id=exc_name, ctx=ast.Load()), args=[], keywords=[]), s.body[i])
+                yield from self._stmt(s.body[i], s2, fi, depth, kb, lambda s3: run_body(i + 1, s3))
+
+            return gen()
+
+        yield from run_body(0, st)
 
     def _subclass_of(self, name: str, bases: list[str]):
         """True/False when the package's class table decides it, None otherwise"""
